@@ -749,31 +749,7 @@ func builderFlow(c *Ctx, g *load.G) {
 		r.Check(len(bad) == 0, "C04-j", "G.builder."+fn+":handles-every-present-rule", "", where(fd), "skips exactly nil rules / rules without name", strings.Join(uniq(bad), "; "))
 	}
 	if fd := get("builder", "addArg"); fd != nil {
-		b, x := recvName(fd), firstParam(fd)
-		var bad []string
-		n := 0
-		for _, p := range enumPaths(fd.Body) {
-			if eg := extraGuards(p, x+"==nil", x+"!=nil"); len(eg) > 0 {
-				bad = append(bad, "a label is registered only under `"+strings.Join(eg, "`, `")+"`: a code block in the current scope does not receive a label that is in its scope")
-				continue
-			}
-			if p.has("+", x+"==nil") || p.has("-", x+"!=nil") {
-				continue
-			}
-			n++
-			okStore := false
-			for _, e := range p {
-				if as, ok := e.Node.(*ast.AssignStmt); ok && e.Kind == "assign" && len(as.Lhs) == 1 && strings.HasPrefix(nospace(as.Lhs[0]), b+".argsStack[") && strings.HasPrefix(nospace(as.Rhs[0]), "append("+nospace(as.Lhs[0])+",") && strings.HasSuffix(nospace(as.Rhs[0]), x+".Val)") {
-					okStore = true
-				}
-			}
-			if !okStore {
-				bad = append(bad, "a present label is not appended to the innermost scope on path "+abbreviate(p.String()))
-			}
-		}
-		if n == 0 {
-			bad = append(bad, "no path registers a label")
-		}
+		bad := argStackProblems(c, get)["addArg"]
 		r.Check(len(bad) == 0, "C04-j", "G.builder.addArg:registers-every-label-in-the-innermost-scope", "", where(fd), "nil → nothing; otherwise appended to argsStack[top] unconditionally", strings.Join(uniq(bad), "; "))
 	}
 	// the braces of a code block are stripped, nothing else: <X>.Val[1 : len(<X>.Val)-1]
